@@ -575,6 +575,17 @@ def subfiles_rule(ctx, rc, cls='CreatedFiles'):
                 isinstance(s_, ast.Name) and s_.id in remover.params
                 for s_ in (a.left, a.comparators[0]))
     ends = set(sg.normal_exits())
+    is_predicate = any(
+        isinstance(r, ast.Return) and isinstance(r.value, ast.Constant) and
+        r.value.value is True for r in ast.walk(remover.node)) and any(
+        isinstance(r, ast.Return) and isinstance(r.value, ast.Constant) and
+        r.value.value is False for r in ast.walk(remover.node))
+    if not is_predicate:
+        # the removal was inlined into the forgetting walk: only the
+        # emptiness condition and the registration of finished files apply
+        rc.note('the listing remover %s is not a predicate helper; verdict '
+                'clauses skipped' % remover.qualname)
+        return _subfiles_tail(ctx, rc, sg, remover, mattr, inner, C, adder)
     # (1) every non-root return removed the entry
     seen = sg.reach([sg.entry], avoid=inner_pop,
                     edge_ok=lambda a, b, lab: not root_fact(lab))
@@ -617,6 +628,13 @@ def subfiles_rule(ctx, rc, cls='CreatedFiles'):
             prog.loc(remover, remover.node), key=key)
     else:
         rc.ok({'verdict': 'False => directory entry kept'}, key=key)
+    return _subfiles_tail(ctx, rc, sg, remover, mattr, inner, C, adder)
+
+
+def _subfiles_tail(ctx, rc, sg, remover, mattr, inner, C, adder):
+    from .. import queries as Q
+    prog = ctx.prog
+    cls = C.name
     # (3) the directory's entry is removed only when the inner map is empty
     key = '%s removes the directory entry only when it is empty' % \
         remover.qualname
